@@ -12,6 +12,19 @@ def make_dist(lst, kind, sp=None):
         return DeterministicDistribution(lab(lst[0][0]))
     if kind == "uniform":
         return UniformDistribution([lab(t) for t, _ in lst])
+    if kind == "multiset":
+        # a uniform distribution over a MULTISET of outcomes (UniformDistribution(..., check_unique=False)): an outcome
+        # that several equally likely results lead to is listed once per result
+        from fractions import Fraction
+        import math
+        fr = [Fraction(q).limit_denominator(24) for _, q in lst]
+        k = 1
+        for f_ in fr:
+            k = k * f_.denominator // math.gcd(k, f_.denominator)
+        events = []
+        for (t, _), f_ in zip(lst, fr):
+            events.extend([lab(t)] * int(f_ * k))
+        return UniformDistribution(events, check_unique=False)
     if sp is not None and sp.meta.get("num_type") == "np":
         return DictDistribution({lab(t): np.float64(q) for t, q in lst})
     return DictDistribution({lab(t): q for t, q in lst})
